@@ -22,6 +22,7 @@ package c37_test
 
 import (
 	"encoding/json"
+	"errors"
 	"fmt"
 	"os"
 	"reflect"
@@ -651,6 +652,8 @@ type checker struct {
 	variants map[string]*variantInfo
 
 	sameStringCompared int64
+
+	nf [256]nfShard // normal forms of group-free strings, see normalForm
 }
 
 // fingerprint reads the (unexported) component list of a variant by reflection. It is only used to decide
@@ -786,13 +789,12 @@ func (c *checker) checkPattern(p pat) (res patResult) {
 	{
 		want := map[string]bool{}
 		for _, e := range exp {
-			ve, err := variantOf(e)
+			nf, err := c.normalForm(e, len(p.tokens), true)
 			if err != nil {
 				c.col.add("expansion-unparseable", p.s, fmt.Sprintf("%q: reference expansion %q is refused: %v", p.s, e, err), cs)
 				continue
 			}
-			want[ve.String()] = true
-			c.variant(ve, len(p.tokens), e)
+			want[nf] = true
 		}
 		for w := range want {
 			if !got[w] {
@@ -807,12 +809,68 @@ func (c *checker) checkPattern(p pat) (res patResult) {
 	}
 	// normalisation is idempotent
 	for _, v := range vs {
-		v2, err := variantOf(v.String())
-		if err != nil || v2.String() != v.String() {
-			c.col.add("variant-not-normal", p.s+"→"+v.String(), fmt.Sprintf("%q: variant %q re-parses to %q, %v", p.s, v.String(), v2.String(), err), cs)
+		nf, err := c.normalForm(v.String(), 0, false)
+		if err != nil || nf != v.String() {
+			c.col.add("variant-not-normal", p.s+"→"+v.String(), fmt.Sprintf("%q: variant %q re-parses to %q, %v", p.s, v.String(), nf, err), cs)
 		}
 	}
 	return res
+}
+
+// normalForm returns the string of the single variant of the group-free pattern e, as computed by the package
+// (ParsePathPattern + RenderAllVariants). It is a function of e alone and expansions repeat across patterns
+// (millions of patterns, far fewer distinct expansions), so the result is computed once per distinct string
+// and remembered; with register the variant is also entered into the variant table (same-string law, pool).
+func (c *checker) normalForm(e string, toks int, register bool) (string, error) {
+	h := uint32(2166136261)
+	for i := 0; i < len(e); i++ {
+		h = (h ^ uint32(e[i])) * 16777619
+	}
+	sh := &c.nf[h%uint32(len(c.nf))]
+	sh.mu.Lock()
+	ent, ok := sh.m[e]
+	sh.mu.Unlock()
+	if ok {
+		if ent.err != "" {
+			return "", errors.New(ent.err)
+		}
+		if !register {
+			return ent.nf, nil
+		}
+		c.mu.Lock()
+		vi := c.variants[ent.nf]
+		if vi != nil && toks < vi.minToks {
+			vi.minToks = toks
+		}
+		c.mu.Unlock()
+		if vi != nil {
+			return ent.nf, nil
+		}
+	}
+	ve, err := variantOf(e)
+	if err != nil {
+		ent = nfEntry{err: err.Error()}
+	} else {
+		if register {
+			c.variant(ve, toks, e)
+		}
+		ent = nfEntry{nf: ve.String()}
+	}
+	sh.mu.Lock()
+	if sh.m == nil {
+		sh.m = map[string]nfEntry{}
+	}
+	sh.m[e] = ent
+	sh.mu.Unlock()
+	return ent.nf, err
+}
+
+type nfEntry struct{ nf, err string }
+
+type nfShard struct {
+	mu sync.Mutex
+	m  map[string]nfEntry
+	_  [5]int64
 }
 
 // checkVariantPaths: both matchers on every path (fills the bitsets).
@@ -1292,7 +1350,12 @@ func TestC37(t *testing.T) {
 	results := make([]patResult, len(pats))
 	var nValid, nMulti, nMultiGroups int64
 	multiByte := func(s string) bool { return len(s) != len([]rune(s)) }
+	var capped int32
 	stuck := watchedFor(len(pats), func(i int) {
+		if r.TimeUp() {
+			atomic.StoreInt32(&capped, 1)
+			return
+		}
 		results[i] = c.checkPattern(pats[i])
 		if results[i].valid {
 			atomic.AddInt64(&nValid, 1)
@@ -1334,7 +1397,6 @@ func TestC37(t *testing.T) {
 	}
 	sort.Slice(vlist, func(i, j int) bool { return vlist[i].v.String() < vlist[j].v.String() })
 	var vEvals int64
-	var capped int32
 	eng.ParallelFor(len(vlist), func(i int) {
 		if r.TimeUp() {
 			atomic.StoreInt32(&capped, 1)
@@ -1344,7 +1406,7 @@ func TestC37(t *testing.T) {
 	})
 	r.Add("distinct_variants", int64(len(vlist)))
 	r.Add("same_string_variants_with_different_components_compared", c.sameStringCompared)
-	if fingerprint(vlist[0].v) == "" {
+	if len(vlist) > 0 && fingerprint(vlist[0].v) == "" {
 		r.Info("warning", "component fingerprint unavailable: the same-string law was not exercised")
 	}
 	r.Add("variant_path_evaluations", vEvals)
